@@ -110,7 +110,15 @@ class E2:
         self.rep = rep
         self.tier = tier
         self.cap_ms = int(os.environ.get("VERIF_SMT_CAP_MS", "20000" if tier == "quick" else "300000"))
-        mir, sources = mirdump.dump()
+        mf = os.environ.get("VERIF_MIR_FILE")
+        if mf and os.path.exists(mf):
+            # a part of a parallel check: the parent dumped the MIR of the current working tree for this run
+            with open(mf) as f:
+                d = json.load(f)
+            mir, sources = d["mir"], d["sources"]
+        else:
+            mir, sources = mirdump.dump()
+        self.mir_text, self.sources = mir, sources
         self.program = Program(mir, sources)
         self.native = Native()
         self.smt2_dir = os.path.join(BUILD, "smt2", rep.prop)
